@@ -76,8 +76,20 @@ def gen_wire(rng, faulty):
 def gen_plan(seed, tier, idx):
     rng = random.Random(seed)
     faulty = idx % 2 == 1
+    wires = [gen_wire(rng, faulty) for _ in range(WIRES_PER_RUN)]
+    if not faulty:
+        # systematic part: element lengths 0..521 are covered exhaustively by the fault-free batch
+        # (run i, wire j carries one element of length (60*i + j) mod 522 as its first message)
+        base = (idx // 2) * WIRES_PER_RUN
+        for j in range(0, WIRES_PER_RUN, 2):
+            L = (base // 2 + j // 2) % 522
+            w = wires[j]
+            if w["kind"] == "script" and L >= 1:
+                w["msgs"] = [[{"d": rng.randbytes(L).hex()}]] + (w["msgs"] if L <= 520 and
+                                                                    all(1 <= len(c["d"]) // 2 <= 520 for m in w["msgs"] for c in m if not isinstance(c, int)) else [])
+                w["msgs"] = w["msgs"][:5]
     return {"property": "C19", "seed": seed, "config": {"batch": "fault" if faulty else "fault_free"},
-            "wires": [gen_wire(rng, faulty) for _ in range(WIRES_PER_RUN)]}
+            "wires": wires}
 
 
 # =========================================================================== execution
@@ -166,6 +178,7 @@ def _run_child(plan):
     stats = {"wires": 0, "messages_parsed": 0, "library_refusals": 0, "accepted_after_fault": 0,
              "fault_kinds_fired": {}, "cells": {}, "push_classes": {}, "reads": 0, "distinct_wires_in_run": 0}
     wire_seen = set()
+    len_seen = set()
     events = []
 
     def add(cls, sig, detail):
@@ -182,6 +195,9 @@ def _run_child(plan):
             for mi, spec in enumerate(w["msgs"]):
                 cmds = _cmds(spec)
                 lens = [len(c) for c in cmds if not isinstance(c, int)]
+                for n in lens:
+                    if n <= 521:
+                        len_seen.add(n)
                 in_domain = all(1 <= n <= 520 for n in lens)
                 for n in lens:
                     pc = "bare" if n <= 75 else "pushdata1" if n <= 255 else "pushdata2" if n <= 520 else "over"
@@ -323,6 +339,7 @@ def _run_child(plan):
         stats["reads"] += len(wire.reads)
         events.append([wi, log])
     stats["distinct_wires_in_run"] = len(wire_seen)
+    stats["element_lengths"] = ["%03d" % n for n in sorted(len_seen)]
     return {"events": events, "violations": violations, "stats": stats}
 
 
@@ -427,6 +444,7 @@ class WireSim(Simulator):
             "fault_kinds_fired": st.get("fault_kinds_fired", {}),
             "fault_position_cells": st.get("cells", {}),
             "distinct_wires": st.get("distinct_wires_in_run", 0),
+            "element_lengths_0_to_521_covered": "%d of 522" % st.get("element_lengths#distinct", 0),
             "wires": st.get("wires", 0),
         }
 
@@ -441,6 +459,8 @@ class WireSim(Simulator):
                 out.append("EOF never landed in %s" % where)
         if not cells.get("varint|eof|varint"):
             out.append("EOF never landed inside a multi-byte varint")
+        if st.get("element_lengths#distinct", 0) < 522 and st.get("wires", 0) >= 200000:
+            out.append("element lengths covered: %d of 522" % st.get("element_lengths#distinct", 0))
         for pc in ("bare", "pushdata1", "pushdata2", "over"):
             if not st.get("push_classes", {}).get(pc):
                 out.append("push class %s never generated" % pc)
